@@ -97,6 +97,8 @@ def check_cursor(ctx, rule, fn, param="s"):
         if k == "CompoundAssignOperator" and n.op == "+=" and _is_var(n.children[0], did):
             sites[n.id] = n
             c = n.children[1].strip().cv()
+            if c is None:
+                c = flow.const_fold(fn, n.children[1])       # `advance(n = 1)`: the step is the parameter of a folded helper
             if c is not None:
                 if K < c:
                     problems.setdefault(n.id, "cursor advanced by %d with only %d character(s) known non-NUL" % (c, K))
@@ -355,7 +357,7 @@ def check_loop_progress(ctx, rule, fn, progress, default_vars=()):
                             if cu_.kind == "DeclRefExpr" and cu_.d["d"] in flags_ and bool(fv_) != bool(t_):
                                 continue
                         if su_ == h:
-                            if not pg_:
+                            if not pg_ and fv_ is not False:        # (with the flag cleared the next test of it leaves the loop)
                                 stuck_ = True
                         elif su_ in body:
                             work_.append((su_, fv_, pg_))
@@ -691,7 +693,7 @@ def check_fmt_spec(ctx, unit):
         # enumeration over the CFG (a switch, an if-chain or a dispatch helper look the same there)
         inits_ = RA.local_inits(f)
         chars = [canon(i.strip()) for d, i in inits_.items() if (i.get("t") or i.strip().get("t") or "") in ("char", "const char")
-                 and any(x.kind in ("CXXOperatorCallExpr", "ArraySubscriptExpr") for x in i.walk())]
+                 and any(x.kind in ("CXXOperatorCallExpr", "ArraySubscriptExpr") or (x.kind == "UnaryOperator" and x.op == "*") for x in i.walk())]
         cand = set()
         for b_ in f.blocks.values():
             if b_.termkind == "SwitchStmt" and b_.cond is not None:
@@ -1147,6 +1149,77 @@ def check_grouping_cursor(ctx, unit, rule="B.grouping-cursor"):
                  "%d subscripts of grouping; index never below its start, advances only past non-zero entries" % len(subs), f)
 
 
+def check_group_size_current(ctx, unit, rule="K.group-size-current"):
+    """print_digits counts digits against the size of the CURRENT group, grouping[g], and g moves as groups are opened and
+    closed.  A local that holds a value read from grouping[g] (directly or through the group_size closure) describes the
+    group g pointed at when it was read: once g has moved it must not be used again without being read anew.  Decided on
+    print_digits with its closures folded in, by a forward dataflow over the set of such locals that are still current."""
+    ctx.rule(rule, "print_digits: a local read from grouping[g] is not used after the grouping index g moved (the size of a group "
+             "is re-read for every group, it is not cached across groups)", 1)
+    from .inline import inline_variant
+    from .ir import value_leaves
+    fs = [f for f in unit.functions if f.name == "print_digits" and f.uq.startswith("frg::_fmt_basics")]
+    if not fs:
+        raise AnalysisBroken("anchor vanished: _fmt_basics::print_digits")
+    done = set()
+    for f in fs:
+        key = f.sig.split("(")[0] + "<" + (f.params()[1]["t"] if len(f.params()) > 1 else "?") + ">"
+        if key in done:
+            continue
+        done.add(key)
+        fi = inline_variant(unit, f, lambda cal: cal.get("kind") == "op" and cal.get("op") == "()" and "print_digits" in (cal.get("uq") or ""), rounds=40)
+        subs = [n for n in fi.all_nodes() if n.kind == "ArraySubscriptExpr" and path(n.children[0]) and path(n.children[0])[-1] == "grouping"]
+        idx = set()
+        for n in subs:
+            for x in n.children[1].walk():
+                if x.kind == "DeclRefExpr" and x.get("local"):
+                    idx.add(x.d["d"])
+        if not subs or not idx:
+            raise AnalysisBroken("anchor vanished: subscripts of the grouping string in print_digits")
+        sub_ids = {n.id for n in subs if any(x.kind == "DeclRefExpr" and x.d.get("d") in idx for x in n.children[1].walk())
+                   and not any(x.kind == "BinaryOperator" and x.op == "+" for x in [n.children[1]] + list(n.children[1].walk()))}
+        inits = RA.local_inits(fi)
+        derived = set()
+        changed = True
+        while changed:
+            changed = False
+            for d, init in inits.items():
+                if d in derived or d in idx:
+                    continue
+                leaves = value_leaves(fi, init) or [init]
+                if any(x.id in sub_ids or (x.kind == "DeclRefExpr" and x.d.get("d") in derived)
+                       for l in leaves for x in [l] + list(l.walk())):
+                    derived.add(d)
+                    changed = True
+        bad, uses = [], set()
+
+        def transfer(n, st, fi=fi):
+            if n.kind == "DeclStmt":
+                for d in n.get("decls", []):
+                    if d["d"] in derived:
+                        st = st | {d["d"]}
+                return [st]
+            if n.kind in ("UnaryOperator", "CompoundAssignOperator", "BinaryOperator") and n.op in ("++", "--", "+=", "-=", "="):
+                t = std_unwrap(n.children[0])
+                if t.kind == "DeclRefExpr" and t.d.get("d") in idx:
+                    return [frozenset()]
+                if t.kind == "DeclRefExpr" and t.d.get("d") in derived and n.op == "=":
+                    # re-read: current again if the new value is itself a current read
+                    return [st | {t.d["d"]}]
+            if n.kind == "DeclRefExpr" and n.d.get("d") in derived:
+                par = fi.parent(n)
+                if par is not None and par.kind == "BinaryOperator" and par.op == "=" and par.children[0].id == n.id:
+                    return [st]
+                uses.add(n.id)
+                if n.d["d"] not in st:
+                    bad.append("%s holds a size read from grouping[%s] and is used at %s after the index moved to another group" % (
+                        n.n, "/".join(sorted({str(fi_n) for fi_n in [x.n for x in fi.all_nodes() if x.kind == "DeclRefExpr" and x.d.get("d") in idx][:1]})), n.loc))
+            return [st]
+        flow.run(fi, [frozenset()], transfer, None, limit=400000)
+        ctx.inst(rule, key, not bad, f.loc, "; ".join(sorted(set(bad))[:2]) if bad else
+                 "%d uses of %d locals read from grouping[g], each before g moves again" % (len(uses), len(derived)), f)
+
+
 def const_bool_arg(n):
     x = std_unwrap(n)           # (through parameters of folded helpers and closures)
     if x.kind == "CXXBoolLiteralExpr":
@@ -1470,23 +1543,43 @@ def check_field_layout(ctx, unit):
         if not sign_ev or not digit_ev or not pad_ev:
             raise AnalysisBroken("anchor vanished: sign / digit / padding output of print_digits (%d/%d/%d)" % (len(sign_ev), len(digit_ev), len(pad_ev)))
         problems = []
-        # the length compared with the width depends on the sign
+        # the length compared with the width depends on the sign: the variables that decide the sign character (the local
+        # that is appended, and what its assignments are decided by -- or, for literal signs, their innermost decisions) must
+        # be among what the length side of a `length < width` decision is computed from
         signdeps = set()
         for s_ in sign_ev:
             x = s_.args[0].strip()
             if x.kind == "DeclRefExpr":
-                signdeps.add(x.d["d"])
-                signdeps.add(f.bind_map().get(x.d["d"], -1) and x.d["d"])
-            for cond, truth in flow.facts_at(f, s_.id):
-                for y in cond.walk():
-                    if y.kind == "DeclRefExpr":
-                        signdeps.add(y.d["d"])
+                sd_ = x.d["d"]
+                signdeps.add(sd_)
+                for y in f.all_nodes():
+                    if y.kind == "BinaryOperator" and y.op == "=" and std_unwrap(y.children[0]).kind == "DeclRefExpr" \
+                            and std_unwrap(y.children[0]).d.get("d") == sd_:
+                        for cond, truth in flow.facts_at(f, y.id):
+                            # (the flags that select the sign are bool parameters; an int that merely dominates the
+                            # assignment, such as the precision of an earlier loop, does not decide it)
+                            signdeps |= {z.d["d"] for z in cond.walk() if z.kind == "DeclRefExpr" and z.get("dk") == "ParmVar"
+                                         and (z.get("t") or "").replace("const ", "") in ("bool", "_Bool")}
+                if sd_ in inits0:
+                    signdeps |= refs_of(inits0[sd_])
+            else:
+                facts_ = flow.facts_at(f, s_.id)
+                for cond, truth in facts_[-2:]:
+                    signdeps |= {z.d["d"] for z in cond.walk() if z.kind == "DeclRefExpr"}
+        signdeps.discard(wp[0]["d"])
         lenvars = set()
         for p_ in pad_ev:
             for cond, truth in flow.facts_at(f, p_.id):
                 rs = refs_of(cond)
                 if wp[0]["d"] in rs:
                     lenvars |= rs
+        import os as _os
+        if _os.environ.get("FRG_DEBUG_LAYOUT"):
+            nm = {}
+            for y in f.all_nodes():
+                if y.kind == "DeclRefExpr":
+                    nm[y.d["d"]] = y.d.get("n")
+            print("DEBUG lenvars", sorted(str(nm.get(d, d)) for d in lenvars), "signdeps", sorted(str(nm.get(d, d)) for d in signdeps))
         if not (lenvars & signdeps):
             problems.append("the length compared with the width does not depend on whether a sign is printed: a signed field is one "
                             "character wider than asked for")
@@ -1526,7 +1619,7 @@ def check_star_width(ctx, unit, rule="B6.star-width-nonneg"):
         holders_ = set()
         for d_, i_ in RA_.local_inits(f).items():
             iv = std_unwrap(i_)
-            if iv.kind == "CallExpr" and iv.callee and iv.callee["uq"] == "frg::pop_arg" and not RA_._reassigned(f, d_):
+            if iv.kind == "CallExpr" and iv.callee and iv.callee["uq"] == "frg::pop_arg":
                 for y in f.events():
                     wy = write_of(y) if y.kind == "BinaryOperator" else None
                     if wy and wy[0] and wy[0][-1] == "minimum_width" and wy[1] is not None and \
@@ -1544,6 +1637,10 @@ def check_star_width(ctx, unit, rule="B6.star-width-nonneg"):
             if n.kind == "DeclStmt" and any(d_.get("d") in holders_ for d_ in n.get("decls", [])):
                 n_star[0] += 1
                 return ["raw"]
+            if n.kind == "BinaryOperator" and n.op == "=" and std_unwrap(n.children[0]).kind == "DeclRefExpr" \
+                    and std_unwrap(n.children[0]).d.get("d") in holders_:
+                # the popped value normalised in place (`if(width < 0) { ...; width = -width; }`)
+                return ["ok" if st in ("neg", "ok") else st] if st != "raw" else ["raw"]
             w = write_of(n) if n.kind in ("BinaryOperator", "CompoundAssignOperator") else None
             if w and w[0] and w[0][-1] == "minimum_width" and w[1] is not None:
                 v = std_unwrap(w[1])
@@ -1705,7 +1802,16 @@ def check_strnlen_bounded(ctx, unit, rule="B.strnlen-bounded"):
                 if any(y.kind == "DeclRefExpr" and y.d.get("d") == cp for y in b.walk()):
                     reads.append(n)
         if not reads:
-            raise AnalysisBroken("anchor vanished: character reads in generic_strnlen")
+            # the scan is delegated to a library routine: bounded when that routine is handed a count made from `max`
+            from .rules_bytes import bytewise_calls
+            dele = [c for c in bytewise_calls(f) if any(y.kind == "DeclRefExpr" and y.d.get("d") == cp for y in c[0].args[0].walk())]
+            if not dele:
+                raise AnalysisBroken("anchor vanished: character reads in generic_strnlen")
+            bad = ["%s() at %s is not handed a count made from `%s`" % (c[1], c[0].loc, ps[1]["n"]) for c in dele
+                   if len(c[0].args) < 2 or not any(y.kind == "DeclRefExpr" and y.d.get("d") == mx for y in c[0].args[-1].walk())]
+            ctx.inst(rule, "frg::generic_strnlen", not bad, f.loc, "; ".join(bad[:2]) if bad else
+                     "the scan is delegated to %s() with a count made from `max`" % dele[0][1], f)
+            continue
         bad = []
         for n in reads:
             ok = False
